@@ -240,6 +240,16 @@ func corpus() []transcript {
 	add("login-sync-literal", []step{{0, greetPlain}, {1, "+ ok\r\n"}, {2, "T1 OK [CAPABILITY IMAP4rev1] done\r\n"}}, func(c *imapclient.Client, r *rec) {
 		r.done("Login", 1, c.Login("us\"er\x80", "p").Wait())
 	})
+	// two synchronising literals; the server grants the first and then fails the command at once,
+	// before the client has announced the second one
+	add("login-two-literals-early-no", []step{{0, greetPlain}, {1, "+ ok\r\nT1 NO [AUTHENTICATIONFAILED] no\r\n"}}, func(c *imapclient.Client, r *rec) {
+		c.Login("us\"er\x80", "pa\nss").Wait()
+		r.done("Login", 0, nil)
+	})
+	add("login-two-literals-second-refused", []step{{0, greetPlain}, {1, "+ ok\r\n"}, {2, "T1 BAD too long\r\n"}}, func(c *imapclient.Client, r *rec) {
+		c.Login("us\"er\x80", "pa\nss").Wait()
+		r.done("Login", 0, nil)
+	})
 	add("idle", []step{{0, preauth}, {1, "+ idling\r\n* 4 EXISTS\r\n* 1 EXPUNGE\r\n"}, {2, "T1 OK done\r\n"}}, func(c *imapclient.Client, r *rec) {
 		idle, err := c.Idle()
 		if err != nil {
